@@ -222,6 +222,8 @@ def _work(args):
             st["invalid_queries"] = st.get("invalid_queries", 0) + 1
             continue
         st["cases"] = st.get("cases", 0) + 1
+        if case.get("overlap_stream"):
+            st["cases_overlap_stream"] = st.get("cases_overlap_stream", 0) + 1
         st["mode_" + prep["mode"]] = st.get("mode_" + prep["mode"], 0) + 1
         if case["noprop"]:
             st["propagation_disabled"] = st.get("propagation_disabled", 0) + 1
@@ -430,13 +432,17 @@ CORPUS = [
 def explore(ctx) -> Report:
     fw.use_repo()
     quick = ctx.tier == "quick"
-    n_cases = 200 if quick else 3000
+    n_cases = 170 if quick else 3000
     cap = CAP_QUICK if quick else CAP_THOROUGH
     if ctx.escalate and quick:
         n_cases = 400
     rng = ctx.sub_rng("c04-cases")
     cases = [(i, c) for i, c in enumerate(CORPUS)]
     cases += [(len(CORPUS) + i, G.gen_case(rng)) for i in range(n_cases)]
+    # dedicated stream: one field shared by deferred fragments at different nesting levels
+    orng = ctx.sub_rng("c04-overlap")
+    n_overlap = 40 if quick else 600
+    cases += [(len(cases) + i, G.gen_overlap_case(orng)) for i in range(n_overlap)]
     drv = DRIVER if ctx.driver else None
     chunks = fw.chunked(cases, fw.WORKERS * 6)
     reps = fw.pmap(_work, [(c, cap, ctx.seed, drv) for c in chunks])
@@ -456,7 +462,8 @@ def explore(ctx) -> Report:
     rep.disagreements += plan_rep.disagreements
     rep.failures += plan_rep.failures
     rep.rule = (
-        f"{n_cases} generated (query, data) cases + corpus over the fixed 4-level schema; each under early in {{F,T}} x "
+        f"{n_cases} generated (query, data) cases + {n_overlap} cases of the dedicated overlap stream (one field shared by a "
+        "deferred fragment and a fragment nested 1-2 defers deep in a sibling fragment, independent gates) + corpus over the fixed 4-level schema; each under early in {{F,T}} x "
         f"consumer in {{eager, lazy}} x all completion orders of the harness handles (DFS, cap {cap} per combination) + 2 "
         "random interleavings with random pull timing; non-trivial = the run produced an initial result with pending "
         "entries and subsequent payloads (cases answered by a single response are counted separately); plus "
